@@ -467,6 +467,30 @@ type RGen struct {
 	V6Slash0   bool // include ::/0 in the prefix pool
 	KernelSafe bool // restrict to what both kernel and userspace can decide identically
 	GeoRefs    bool // emit geosite:/geoip:/ext: references (requires Geo model + files)
+	// BadKeyword: now and then a keyword/contains value outside the matcher's alphabet.
+	// dae refuses such a program ("char out of range"); callers must accept that refusal
+	// (RProg.HasBadKeyword) and judge the decisions only when the build succeeded.
+	BadKeyword bool
+}
+
+// PoolDomKeywordBad are keyword values the Aho-Corasick automaton cannot hold.
+var PoolDomKeywordBad = []string{"Goo.GLE", "Face Book", "ex*mple"}
+
+// HasBadKeyword reports whether a keyword/contains value of p is outside the matcher's alphabet.
+func (p *RProg) HasBadKeyword() bool {
+	for _, r := range p.Rules {
+		for _, c := range r.Conds {
+			if c.Func != "domain" {
+				continue
+			}
+			for _, pa := range c.Params {
+				if (pa.Key == "keyword" || pa.Key == "contains") && domOutOfAlphabet(pa.Val) {
+					return true
+				}
+			}
+		}
+	}
+	return false
 }
 
 var (
@@ -547,6 +571,10 @@ func (g *RGen) genCond(fn string) RCond {
 			case 2:
 				c.Params = append(c.Params, RParam{"full", g.pick(PoolDomFull)})
 			case 3:
+				if g.BadKeyword && g.R.IntN(8) == 0 {
+					c.Params = append(c.Params, RParam{"keyword", g.pick(PoolDomKeywordBad)})
+					continue
+				}
 				c.Params = append(c.Params, RParam{"keyword", g.pick(PoolDomKeyword)})
 			case 4:
 				if g.NoRegex {
